@@ -574,6 +574,12 @@ func (x *Exec) applyContract(ct *FuncContract, fn *types.Func, recv *Val, args [
 	}
 	x.escapes(recv)
 	pre := st.Snapshot()
+	if ct.Flags["lockheld"] && x.vc.quiet == 0 {
+		x.lockAccesses++
+		if st.held != 1 {
+			x.lockViolations = append(x.lockViolations, fmt.Sprintf("call of %s (requires Raft.mu) without holding it at %s", ct.Key, x.e.pos(pos)))
+		}
+	}
 	// preconditions
 	envPre := x.calleeEnv(fn, ct, recv, args, nil, st, pre)
 	for ri, cl := range ct.ClausesOf("requires") {
